@@ -54,24 +54,44 @@ pub(crate) mod kani_tab {
         }
     }
     #[kani::proof]
-    #[kani::unwind(245)]
+    #[kani::unwind(62)]
     pub(crate) fn row_facts_0() {
-        row_facts(0, 120);
+        row_facts(0, 60);
     }
     #[kani::proof]
-    #[kani::unwind(245)]
+    #[kani::unwind(62)]
     pub(crate) fn row_facts_1() {
-        row_facts(120, 240);
+        row_facts(60, 120);
     }
     #[kani::proof]
-    #[kani::unwind(245)]
+    #[kani::unwind(62)]
     pub(crate) fn row_facts_2() {
-        row_facts(240, 360);
+        row_facts(120, 180);
     }
     #[kani::proof]
-    #[kani::unwind(245)]
+    #[kani::unwind(62)]
     pub(crate) fn row_facts_3() {
-        row_facts(360, 477);
+        row_facts(180, 240);
+    }
+    #[kani::proof]
+    #[kani::unwind(62)]
+    pub(crate) fn row_facts_4() {
+        row_facts(240, 300);
+    }
+    #[kani::proof]
+    #[kani::unwind(62)]
+    pub(crate) fn row_facts_5() {
+        row_facts(300, 360);
+    }
+    #[kani::proof]
+    #[kani::unwind(62)]
+    pub(crate) fn row_facts_6() {
+        row_facts(360, 420);
+    }
+    #[kani::proof]
+    #[kani::unwind(62)]
+    pub(crate) fn row_facts_7() {
+        row_facts(420, 477);
         assert!(SYSTEMATIC_INDICES_AND_PARAMETERS[476].0 == MAX_SOURCE_SYMBOLS_PER_BLOCK, "C15 last K' == K'_max");
     }
 
